@@ -37,7 +37,9 @@ def gen_history(rng, stats, names=True, max_adds=8):
     for _ in range(rng.randint(0, 2)):
         if tail:
             head.insert(rng.randint(1, len(head)), tail.pop())
-    used_names = []
+    from ombott.router.radirouter import RadiRouter
+    shadow = RadiRouter()          # only to know which rules are accepted (paths are derived from those)
+    live = []
     for what in head + tail:
         if what == 'A':
             if rng.random() < .08:
@@ -46,6 +48,11 @@ def gen_history(rng, stats, names=True, max_adds=8):
                 rule, ast = G.gen_rule(rng, asts)
             if ast is not None:
                 asts.append(ast)
+                try:
+                    shadow.add(rule, 'X%d' % len(ops), len)
+                    live.append(ast)
+                except Exception:
+                    pass
             name = None
             if names and rng.random() < .12:
                 name = rng.choice(['n1', 'n2', ''])
@@ -53,7 +60,7 @@ def gen_history(rng, stats, names=True, max_adds=8):
             if rule in ('/u/:a', '/n/<x:int>'):
                 asts.append([('lit', rule[1:3]), ('w', 'q', 'int' if 'int' in rule else None, None, None)])
         else:
-            p = G.gen_path(rng, asts)
+            p = G.gen_path(rng, live if (live and rng.random() < .85) else asts)
             k = rng.random()
             if k < .55:
                 ops.append(['R', p, rng.choice(RES_METHODS)])
@@ -92,7 +99,7 @@ class C01(Check):
         self.stats = {}
 
     def budget(self, tier, escalated):
-        n = 700 if tier == 'quick' else 20000
+        n = 1200 if tier == "quick" else 60000
         return n * (3 if escalated and tier == 'quick' else 1)
 
     def nontrivial(self, sample):
